@@ -9,7 +9,7 @@
            C20_line_guard_example, C20_line_exact_connected  -- the error term in EXACT arithmetic (the double code
                                                                 agrees with it except on ties; checked op `linex`)
   circle:  C20_circle_count, C20_circle_sym                  -- any octant list (midpoint and trigonometric)
-           C20_midpoint_count, C20_circle_on_curve, C20_circle_bbox, C20_circle_within_one_pixel,
+           C20_midpoint_count, C20_circle_on_curve, C20_circle_bbox, C20_circle_within_one_pixel, C20_circle_reaches_diagonal,
            C20_circle_bound_needed_witness
   ellipse: C20_ellipse_closed_form (t8, t9, d1, d2 in closed form = the ellipse equation at the midpoints),
            C20_ellipse_bbox, C20_ellipse_terminates, C20_ellipse_connected, C20_ellipse_ends, C20_ellipse_closed,
@@ -574,6 +574,62 @@ theorem C20_circle_within_one_pixel (c : Pt) (r : Int) (hr : 0 ≤ r) (n : Nat)
   rw [List.mem_flatMap] at hq
   obtain ⟨p, hp, hqp⟩ := hq
   exact (mirror_ok c r p q (C20_circle_on_curve r hr n hn p hp) hqp).2
+
+private theorem midLoop_last (r2 : Int) (k : Nat) (x y : Int) :
+    ∀ p, (midLoop r2 k x y).getLast? = some p → p.1 = x + (k : Int) - 1 := by
+  induction k generalizing x y with
+  | zero => intro p h; simp [midLoop] at h
+  | succ k ih =>
+    intro p h
+    cases k with
+    | zero => simp only [midLoop, List.getLast?_singleton, Option.some.injEq] at h; subst h; simp
+    | succ m =>
+      have h2 : (midLoop r2 (m + 1) (x + 1) (mid_body x y r2)).getLast? = some p := by
+        rw [midLoop] at h
+        rw [midLoop] at h ⊢
+        simpa [List.getLast?_cons_cons] using h
+      have := ih (x + 1) (mid_body x y r2) p h2
+      rw [this]; push_cast; ring
+
+/-- The octant arc reaches the diagonal: when n = point_count()/8 is the nearest integer to r·cos 45° plus one
+    (both integer bounds are checked for every radius of a run on the real point_count()), the last octant point (x, y)
+    has |x − y| ≤ 1, so it is 8-adjacent to its mirror image (y, x): together with the unit steps of the loop the eight
+    mirrored arcs close up into one ring (the Spec clause `closed` the judge evaluates on the real output). -/
+theorem C20_circle_reaches_diagonal (r : Int) (hr : 0 ≤ r) (n : Nat) (hn1 : 1 ≤ n)
+    (hup : n ≤ 1 ∨ 2 * ((n : Int) - 1) * ((n : Int) - 1) - 2 * ((n : Int) - 1) + 1 ≤ r * r)
+    (hlow : 2 * (r * r) ≤ (2 * (n : Int) - 1) * (2 * (n : Int) - 1)) :
+    ∀ p, (midOctant r n).getLast? = some p → p.1 = (n : Int) - 1 ∧ p.2 - p.1 ≤ 1 ∧ p.1 - p.2 ≤ 1 := by
+  intro p hp
+  have hmem := List.mem_of_getLast? hp
+  obtain ⟨h1, h2, h3, h4, h5, h6⟩ := C20_circle_on_curve r hr n hup p hmem
+  have hx : p.1 = (n : Int) - 1 := by
+    unfold midOctant at hp
+    by_cases hk : n - 1 = 0
+    · rw [hk] at hp; simp only [midLoop, List.getLast?_singleton, Option.some.injEq] at hp; subst hp; simp; omega
+    · obtain ⟨m, hm⟩ : ∃ m, n - 1 = m + 1 := ⟨n - 2, by omega⟩
+      have hl : (midLoop (r * r) (n - 1) 1 r).getLast? = some p := by
+        rw [hm] at hp ⊢
+        rw [midLoop] at hp ⊢
+        simpa [List.getLast?_cons_cons] using hp
+      have := midLoop_last (r * r) (n - 1) 1 r p hl
+      rw [this]; omega
+  refine ⟨hx, ?_, ?_⟩
+  · -- y ≤ x + 1, from the lower bound on n and x² + y² − y ≤ r²
+    by_contra hc
+    have hy : p.1 + 2 ≤ p.2 := by omega
+    have e : (2 * (n : Int) - 1) = 2 * p.1 + 1 := by omega
+    rw [e] at hlow
+    nlinarith [mul_self_nonneg (p.2 - p.1 - 2), mul_nonneg h1 (by omega : (0 : Int) ≤ p.2 - p.1 - 2)]
+  · -- x ≤ y + 1, from the upper bound on n and 0 ≤ x² + y² + y − r²
+    by_contra hc
+    have hy : p.2 + 2 ≤ p.1 := by omega
+    rcases hup with hu | hu
+    · omega
+    · have e : ((n : Int) - 1) = p.1 := by omega
+      rw [e] at hu
+      nlinarith [mul_self_nonneg (p.1 - p.2 - 2), mul_nonneg h2 (by omega : (0 : Int) ≤ p.1 - p.2 - 2)]
+
+example : 2 * ((5 : Int) * 5) ≤ (2 * ((5 : Nat) : Int) - 1) * (2 * ((5 : Nat) : Int) - 1) := by decide
 
 /-- the hypothesis on n is needed: one iteration too many leaves the circle (r = 1, n = 3 emits (2,0) mirrored) -/
 theorem C20_circle_bound_needed_witness : specCircleBBox (0, 0) 1 (midCircleWith (0, 0) 1 3) = false := by decide
